@@ -45,6 +45,7 @@ type Contract struct {
 	Ensures   []Clause
 	Assigns   []Clause // each a location expression
 	HasAssign bool
+	AssignsAll bool // "assigns *": no frame claimed; callers havoc everything
 	Loops     map[int]*LoopSpec
 	Replay    []string
 	Strings   string
@@ -53,8 +54,17 @@ type Contract struct {
 	Fresh     bool   // extern: result is a freshly allocated object
 	Calls     string // higher-order extern: name of closure param invoked
 	Alias     string // name usable in specifications for a pure extern
+	Aliases   map[string]int // alias name -> result index
 	Conforms  string // copy the clauses of this (function type) contract
+	Sets      []SetClause // ghost updates performed at return (assumed by callers, nothing to prove in the body)
+	NoPanic   bool
 	conformed bool
+}
+
+type SetClause struct {
+	Text   string
+	Target SExpr // ghost var or ghostmap[index]
+	Value  SExpr
 }
 
 type SpecFun struct {
@@ -101,7 +111,7 @@ var clauseKeywords = map[string]bool{
 	"func": true, "extern": true, "spec": true, "ghost": true, "lemma": true, "axiom": true,
 	"requires": true, "ensures": true, "assigns": true, "loop": true, "props": true,
 	"trusted": true, "pure": true, "maypanic": true, "replay": true, "strings": true,
-	"fresh": true, "nohavoc": true, "decreases": true, "induct": true, "calls": true, "alias": true, "conforms": true,
+	"fresh": true, "nohavoc": true, "decreases": true, "induct": true, "calls": true, "alias": true, "conforms": true, "sets": true,
 }
 
 type rawLine struct {
@@ -418,6 +428,9 @@ func (sp *Specs) load(path string, prefixed bool, pkgPath string) error {
 				cur.Requires = append(cur.Requires, c)
 			} else {
 				cur.Ensures = append(cur.Ensures, c)
+				if c.Text == "nopanic" {
+					cur.NoPanic = true
+				}
 			}
 		case "assigns":
 			if cur == nil {
@@ -426,6 +439,10 @@ func (sp *Specs) load(path string, prefixed bool, pkgPath string) error {
 			cur.HasAssign = true
 			for _, part := range splitTop(rest) {
 				part = strings.TrimSpace(part)
+				if part == "*" {
+					cur.AssignsAll = true
+					continue
+				}
 				if part == "nothing" || part == "" {
 					continue
 				}
@@ -515,12 +532,40 @@ func (sp *Specs) load(path string, prefixed bool, pkgPath string) error {
 			}
 		case "alias":
 			if cur != nil {
-				cur.Alias = rest
+				fs2 := strings.Fields(rest)
+				idx := 0
+				if len(fs2) > 1 {
+					idx, _ = strconv.Atoi(fs2[1])
+				}
+				if cur.Aliases == nil {
+					cur.Aliases = map[string]int{}
+				}
+				cur.Aliases[fs2[0]] = idx
+				if cur.Alias == "" {
+					cur.Alias = fs2[0]
+				}
 			}
 		case "conforms":
 			if cur != nil {
 				cur.Conforms = rest
 			}
+		case "sets":
+			if cur == nil {
+				return fail(fmt.Errorf("sets outside func"))
+			}
+			i := strings.Index(rest, " = ")
+			if i < 0 {
+				return fail(fmt.Errorf("expected: sets ghost = expr"))
+			}
+			te, err := parseSpecExpr(rest[:i])
+			if err != nil {
+				return fail(err)
+			}
+			ve, err := parseSpecExpr(rest[i+3:])
+			if err != nil {
+				return fail(err)
+			}
+			cur.Sets = append(cur.Sets, SetClause{Text: rest, Target: te, Value: ve})
 		case "maypanic":
 			if cur != nil {
 				cur.MayPanic = true
@@ -599,7 +644,10 @@ func (sp *Specs) resolveConforms() error {
 		c.Requires = append(append([]Clause{}, base.Requires...), c.Requires...)
 		c.Ensures = append(append([]Clause{}, base.Ensures...), c.Ensures...)
 		c.Assigns = append(append([]Clause{}, base.Assigns...), c.Assigns...)
+		c.Sets = append(append([]SetClause{}, base.Sets...), c.Sets...)
+		c.NoPanic = c.NoPanic || base.NoPanic
 		c.HasAssign = c.HasAssign || base.HasAssign
+		c.AssignsAll = c.AssignsAll || base.AssignsAll
 		c.conformed = true
 	}
 	return nil
